@@ -106,6 +106,7 @@ pub struct Stats {
     pub enum_fields_set: usize,
     pub multi_part_fields: usize,
     pub includes_entered: usize,
+    pub includes_nested: usize,
     pub ws_gap_sites: usize,
     pub ws_nonempty_in_nested: usize,
     pub near_miss_seen: usize,
@@ -138,11 +139,13 @@ pub struct Cfg {
     pub salt: u64,
     pub fuel: usize,
     pub record_trace: bool,
+    /// answer revisits of @memoize rules from a table (packrat model used by C06)
+    pub memo_aware: bool,
 }
 
 impl Default for Cfg {
     fn default() -> Self {
-        Cfg { salt: 0, fuel: 400_000, record_trace: true }
+        Cfg { salt: 0, fuel: 400_000, record_trace: true, memo_aware: false }
     }
 }
 
@@ -556,6 +559,9 @@ impl<'a> Interp<'a> {
                     None => return Err(()),
                 };
                 self.stats.includes_entered += 1;
+                if self.nest > 0 {
+                    self.stats.includes_nested += 1;
+                }
                 self.eval(body, pos, skip)
             }
         }
@@ -622,7 +628,20 @@ impl<'a> Interp<'a> {
                 if self.cfg.record_trace {
                     self.trace.push(Ev::Start { rule: n.name.clone(), pos: p, abandoned: false });
                 }
-                let r = if n.leftrec() { self.grow(n, p) } else { self.body_once(n, p) };
+                let r = if n.leftrec() {
+                    self.grow(n, p)
+                } else if n.memoize() && self.cfg.memo_aware {
+                    let key = (n.name.clone(), p);
+                    if let Some(r) = self.table.get(&key) {
+                        r.clone()
+                    } else {
+                        let r = self.body_once(n, p);
+                        self.table.insert(key, r.clone());
+                        r
+                    }
+                } else {
+                    self.body_once(n, p)
+                };
                 if self.cfg.record_trace {
                     self.trace.push(Ev::Result { ok: r.is_ok(), abandoned: false });
                 }
@@ -644,11 +663,16 @@ impl<'a> Interp<'a> {
         if ch.len_utf8() > 1 {
             self.stats.multibyte_at_terminal += 1;
         }
-        for chk in c.checks() {
-            let (short, _) = hooks::short_name(&chk);
+        let cchecks = c.checks();
+        for (ci, chk) in cchecks.iter().enumerate() {
+            let (short, _) = hooks::short_name(chk);
             self.stats.checks_called += 1;
             self.hooks.push(HookCall { name: short.to_string(), arg: ch.to_string(), ty: String::new() });
             if !hooks::decide_char_check(short, ch) {
+                for later in &cchecks[ci + 1..] {
+                    let (s2, _) = hooks::short_name(later);
+                    self.hooks_optional.push(HookCall { name: s2.to_string(), arg: ch.to_string(), ty: String::new() });
+                }
                 self.stats.hooks_failed += 1;
                 self.note(p, spec);
                 return Err(());
